@@ -7,3 +7,4 @@ pub mod frame;
 pub mod sigref;
 pub mod masterfile;
 pub mod zone;
+pub mod canon;
